@@ -128,7 +128,7 @@ func (api *API) mapDecodeBasedOnType(ctx context.Context, mapVal any, value refl
 				return nil
 			}
 
-			return api.mapDecodeSlice(ctx, mapVal, sliceValue, sliceValueType, ts, opts)
+			return api.mapDecodeArray(ctx, mapVal, value.Elem(), elemType, ts, opts)
 		}
 
 	case reflect.Struct:
@@ -155,7 +155,7 @@ func (api *API) mapDecodeBasedOnType(ctx context.Context, mapVal any, value refl
 			return nil
 		}
 
-		return api.mapDecodeSlice(ctx, mapVal, sliceValue, sliceValueType, ts, opts)
+		return api.mapDecodeArray(ctx, mapVal, value, valueType, ts, opts)
 	case reflect.Interface:
 		return api.mapDecodeInterface(ctx, mapVal, value, valueType, ts, opts)
 	case reflect.String:
@@ -465,6 +465,25 @@ func (api *API) mapDecodeSlice(ctx context.Context, mapVal any, value reflect.Va
 			return ierrors.Wrapf(err, "can't deserialize '%s' type", value.Kind())
 		}
 	}
+
+	return nil
+}
+
+// mapDecodeArray decodes a json array into an array of non-byte elements.
+// The elements are decoded into a fresh addressable slice (the slice obtained from sliceFromArray is a copy
+// that can neither be appended to nor written back) and are copied into the array afterwards.
+func (api *API) mapDecodeArray(ctx context.Context, mapVal any, arrayValue reflect.Value,
+	arrayType reflect.Type, ts TypeSettings, opts *options) error {
+	sliceType := reflect.SliceOf(arrayType.Elem())
+	sliceValue := reflect.New(sliceType).Elem()
+	if err := api.mapDecodeSlice(ctx, mapVal, sliceValue, sliceType, ts, opts); err != nil {
+		return ierrors.WithStack(err)
+	}
+
+	if sliceValue.Len() != arrayType.Len() {
+		return ierrors.Errorf("can't map decode %s: got %d elements", arrayType, sliceValue.Len())
+	}
+	fillArrayFromSlice(arrayValue, sliceValue)
 
 	return nil
 }
